@@ -326,6 +326,8 @@ def doc_rules(ctx):
     prog = ctx.prog
     R8 = ctx.rule("R8", "every template variable documented for a hook type in acmed.toml(5) exists in the data structure given to hooks of that type")
     docs, path = A.man_hook_variables(ctx.repo)
+    import os as _os
+    path = _os.path.relpath(path, ctx.repo)
     ctx.floor(R8, "hook types documented", len(docs), 11)
     struct_for = {}
     for v, k in KEBAB.items():
